@@ -190,6 +190,24 @@ def cli_paths(ctx):
     ctx.extra["cli_paths"] = len(ps or [])
 
 
+# loops whose executable model lives in another property's development: (Props file, theorem that must exist there)
+MODELLED_ELSEWHERE = {
+    ("encryption", "is_xls_encrypted"): ("C08/Props.v", "C08_biff_terminates"),
+    ("rtf_extractor", "_RtfParser._strip_rtf_full_with_pages"): ("C04/Props.v", "C04_rtf_output_utf8able"),
+    ("rtf_extractor", "_RtfParser._remove_ignorable_groups"): ("C02/PropsRtf.v", "C02_rtf_prune_keeps_spec"),
+    ("data_types", "DocxContent.iterate_units"): ("C03/Props.v", "C03_docx_numbers_strict"),
+    ("omml_to_latex", "omml_to_latex.process_element"): ("C19/Props.v", "C19_total"),
+    ("pdf_extractor", "_patched_build_char_map"): ("C15/Props.v", "C15_patch_restored"),
+    ("ods_extractor", "_extract_sheet"): ("C12/Props.v", "C12_ods_expansion_size"),
+    ("docx_extractor", "_get_image_pixel_dimensions"): ("C14/Props.v", "C14_sniff_total"),
+    ("pptx_extractor", "_get_image_pixel_dimensions"): ("C14/Props.v", "C14_sniff_total"),
+    ("xlsx_extractor", "_get_image_pixel_dimensions"): ("C14/Props.v", "C14_sniff_total"),
+    ("_pypdf_aes_fallback", "_gf_mul"): ("C20/Props.v", "C20_gf_mul_ok"),
+    ("client", "SharePointRestClient._list_items_paginated"): ("C18/Props.v", "C18_walk_exact"),
+    ("client", "SharePointRestClient._get_folders_from_url"): ("C18/Props.v", "C18_walk_exact"),
+}
+
+
 def loop_inventory(ctx):
     import pkgutil
     import sharepoint2text
@@ -206,6 +224,18 @@ def loop_inventory(ctx):
     ctx.obligation("loop-inventory:every-while-loop-classified", not unknown,
                    f"while loops without a termination argument: {unknown}")
     ctx.extra["while_loops"] = len(found)
+    # loops modelled in another property's development: the theorem that carries the termination /
+    # totality claim must still be stated there (a total Gallina function that corresponds to the code)
+    missing = []
+    for key, (pf, thm) in MODELLED_ELSEWHERE.items():
+        try:
+            src = common.strip_coq_comments((common.COQ / pf).read_text())
+        except FileNotFoundError:
+            src = ""
+        if not __import__("re").search(r"\b(Theorem|Lemma)\s+" + thm + r"\b", src):
+            missing.append(f"{key[1]} -> {pf}:{thm}")
+    ctx.obligation("loop-inventory:models-in-other-properties-still-stated", not missing, "; ".join(missing))
+    ctx.extra["loops_modelled"] = sorted({k[1] for k in MODELLED_ELSEWHERE} | {"_iter_records", "get_jpeg_dimensions"})
     return found
 
 
